@@ -11,6 +11,7 @@
 using namespace std;
 #include "file_mem.h"
 extern "C" {
+size_t forced_lang_flags;   // file-static of src/uncrustify.cpp (language given with -l)
 // helpers and libc: bodies never used, every one is replaced by its contract
 size_t language_flags_from_filename(const char *filename) { return nondet_size_t(); }
 const char *language_name_from_flags(size_t lang) { return ""; }
